@@ -1,5 +1,6 @@
 """Native replays for C07 (run with the repository's interpreter against VERIF_REPO)."""
-import json, sys, os, re, tempfile
+import json, sys, os, re, tempfile, logging
+logging.disable(logging.CRITICAL)
 from datetime import datetime, timezone
 req = json.load(sys.stdin)
 out = {"violates": False}
